@@ -96,6 +96,11 @@ func genCase(g *Rng) (*Replay, *caseGen) {
 		rp.Flt.Needle = "k"
 		rp.Flt.Range = true
 	}
+	if cg.retry {
+		// (the chunk-window skipping of RANGE queries is not modelled: its interplay with the stale state of a
+		// retried cursor would not be predictable)
+		rp.Flt.Range = false
+	}
 	if rp.Flt.Range {
 		lo := 1000 + int64(g.Intn(int(cg.ts-1000)+2)) - 1
 		hi := lo + int64(g.Intn(int(cg.ts-lo)+60))
@@ -291,6 +296,7 @@ func runCase(rp *Replay, cg *caseGen) (*Case, error) {
 		prev, cur = used, next
 		return nil
 	}
+	_ = step
 	if rp.Sel != nil {
 		rp.Sel.steps = nil
 		if err := r.runSelect(rp.Sel); err != nil {
@@ -302,11 +308,14 @@ func runCase(rp *Replay, cg *caseGen) (*Case, error) {
 			if err := step(st); err != nil {
 				return nil, err
 			}
+			if r.aborted {
+				break
+			}
 		}
 	} else {
 		for {
 			st, ok := cg.next(r, cur)
-			if !ok {
+			if !ok || r.aborted {
 				break
 			}
 			rp.Steps = append(rp.Steps, st)
@@ -320,6 +329,9 @@ func runCase(rp *Replay, cg *caseGen) (*Case, error) {
 	// ---- the Gallina case
 	var gsteps, gobs []string
 	for i, st := range rp.Steps {
+		if i >= len(r.coqApps) {
+			break // aborted
+		}
 		k := map[string]string{"same": "RSame", "evict": "REvict", "zero": "RZero", "posonly": "RPosOnly", "retry": "RRetry"}[st.Kind]
 		gsteps = append(gsteps, fmt.Sprintf("(mkStep %s %s %s %s)", k, GN(uint64(st.Limit)), GBool(st.Wait), GList(r.coqApps[i])))
 	}
@@ -353,6 +365,43 @@ func runCase(rp *Replay, cg *caseGen) (*Case, error) {
 		start = "PTail"
 	}
 	coq := GApp("KRun", r.st0, rp.Flt.coq(), start, GList(gsteps), GList(gobs))
+	if rp.Bulk > 0 {
+		// a large generated store: compact form (the literal would take minutes to parse)
+		if len(rp.Init) != 0 || rp.Flt.any() || start != "PHead" || len(r.parts) != 1 {
+			return nil, fmt.Errorf("bulk cases are single-partition, unfiltered, from the head")
+		}
+		pr := r.parts[0]
+		var cks, bobs []string
+		for _, c := range pr.layout {
+			cks = append(cks, GTuple(GN(c.Id), GN(uint64(c.Cnt))))
+		}
+		for i := range r.coqApps {
+			if len(r.coqApps[i]) != 0 {
+				return nil, fmt.Errorf("bulk cases have no appends")
+			}
+		}
+		for _, p := range r.pages {
+			first, n := uint64(0), uint64(len(p.evs))
+			ok := true
+			for k, e := range p.evs {
+				if k == 0 {
+					first = uint64(e.Timestamp - 5000)
+				}
+				if e.Tags != pr.tags || e.Message != "k" || e.Fields != "" || e.Timestamp != int64(5000+first)+int64(k) {
+					ok = false
+				}
+			}
+			if !ok {
+				first, n = 1<<40, 1 // not a run of generated events: a page the model cannot produce
+			}
+			var pl []string
+			if ps, have := p.pos[pr.src]; have {
+				pl = append(pl, gPos(pr.src, ps))
+			}
+			bobs = append(bobs, GTuple(GN(first), GN(n), GList(pl), GBool(p.id != 0)))
+		}
+		coq = GApp("KBulk", GStr(pr.src), GStr(pr.tags), GList(cks), GList(gsteps), GList(bobs))
+	}
 
 	// ---- classification
 	other := 0
@@ -467,7 +516,7 @@ func corpus() []Replay {
 		},
 		{ // api.Select with a total limit above QueryMaxLimit over more than QueryMaxLimit matching events:
 			// the server clamps the first page to 10000 (and caches the cursor); the loop must go on until an empty page
-			Name: "select-over-max-limit", Chunk: 60000, Init: one(Ev{1001, "k", ""}), Bulk: 10500,
+			Name: "select-over-max-limit", Chunk: 60000, Bulk: 10500,
 			Sel: &SelectSpec{Limit: 12000},
 		},
 		{ // api.Select, stream mode with a waiting (cached) cursor, appends into the last chunk between queries
